@@ -708,3 +708,256 @@ Fixpoint rchunks_render (cs : list rchunk) (v : Z) : option (list Z) :=
               | _, _ => None
               end
   end.
+
+(* ------------------------------------------------------------------ *)
+(* Part 6: designs — DSL control flow, registers, several clock domains, a comb process                      *)
+
+(* 6.1  If/Elif/Else and Switch/Case as written with the DSL, lowered to the priority chain _emit_switch runs.
+   A Case pattern is the string of '0' '1' '-' characters (most significant first); None = Default. *)
+Inductive dstmt :=
+| DPrint (f : format)
+| DProp (k : pkind) (t : vexpr) (m : option format)
+| DIf (arms : darms) (els : dprog)
+| DSwitch (i : nat) (cases : dcases)
+with dprog := DNil | DCons (s : dstmt) (r : dprog)
+with darms := ANil | ACons (i : nat) (b : dprog) (r : darms)
+with dcases := KNil | KCons (pats : option (list (list Z))) (b : dprog) (r : dcases).
+
+(* mask = int of ('0' if b == '-' else '1'), value = int of ('0' if b == '-' else b), base 2 *)
+Definition pat_mv (p : list Z) : Z * Z :=
+  fold_left (fun mv c => (2 * fst mv + (if c =? 45 then 0 else 1), 2 * snd mv + (if c =? 49 then 1 else 0))) p (0, 0).
+
+Fixpoint lower_stmt (s : dstmt) : prog :=
+  match s with
+  | DPrint f => PPrint f
+  | DProp k t m => PProp k t m
+  | DIf arms els => lower_arms arms (lower_prog els)
+  | DSwitch i cs => lower_cases i cs
+  end
+with lower_prog (p : dprog) : prog :=
+  match p with DNil => PSkip | DCons s r => PSeq (lower_stmt s) (lower_prog r) end
+with lower_arms (a : darms) (els : prog) : prog :=
+  match a with ANil => els | ACons i b r => PIf (CNz i) (lower_prog b) (lower_arms r els) end
+with lower_cases (i : nat) (cs : dcases) : prog :=
+  match cs with
+  | KNil => PSkip
+  | KCons pats b r =>
+      PIf (CPat i (match pats with None => [(0, 0)] | Some ps => map pat_mv ps end)) (lower_prog b) (lower_cases i r)
+  end.
+
+(* SPEC of the DSL: a pattern matches when every non '-' position equals the bit of the test;
+   the first arm / case that matches runs, nothing else *)
+Fixpoint pat_matches_lsb (l : list Z) (test : Z) : bool :=      (* l = pattern, last character first *)
+  match l with
+  | [] => true
+  | c :: r => (if c =? 45 then true else Bool.eqb (Z.odd test) (c =? 49)) && pat_matches_lsb r (Z.div2 test)
+  end.
+Definition pat_matches (p : list Z) (test : Z) : bool := pat_matches_lsb (rev p) test.
+
+Definition sig_test (sigs : list shape) (env : list Z) (i : nat) : Z :=
+  mask (width (sig_shape sigs i)) (sig_val env i).
+
+Fixpoint dexec_stmt (sigs : list shape) (env : list Z) (s : dstmt) (out : list Z) : outcome :=
+  match s with
+  | DPrint f => fire_print sigs env f out
+  | DProp k t m => fire_prop sigs env k t m out
+  | DIf arms els => dexec_arms sigs env arms out (dexec_prog sigs env els out)
+  | DSwitch i cs => dexec_cases sigs env i cs out
+  end
+with dexec_prog (sigs : list shape) (env : list Z) (p : dprog) (out : list Z) : outcome :=
+  match p with
+  | DNil => Cont out
+  | DCons s r => match dexec_stmt sigs env s out with Cont o => dexec_prog sigs env r o | x => x end
+  end
+with dexec_arms (sigs : list shape) (env : list Z) (a : darms) (out : list Z) (otherwise : outcome) : outcome :=
+  match a with
+  | ANil => otherwise
+  | ACons i b r => if negb (sig_test sigs env i =? 0) then dexec_prog sigs env b out
+                   else dexec_arms sigs env r out otherwise
+  end
+with dexec_cases (sigs : list shape) (env : list Z) (i : nat) (cs : dcases) (out : list Z) : outcome :=
+  match cs with
+  | KNil => Cont out
+  | KCons pats b r =>
+      if match pats with None => true | Some ps => existsb (fun p => pat_matches p (sig_test sigs env i)) ps end
+      then dexec_prog sigs env b out else dexec_cases sigs env i r out
+  end.
+
+(* 6.2  run-time ValueError of finding C20-brace-fill (bf = true: semantics of the unrepaired code) *)
+Definition brace_fill (sp : spec) : bool :=
+  match f_fill sp with Some c => is_brace c | None => false end.
+
+Fixpoint render_b (bf : bool) (sigs : list shape) (env : list Z) (f : format) (acc : list Z) : res :=
+  match f with
+  | [] => Ok acc
+  | CLit t :: r => render_b bf sigs env r (acc ++ t)
+  | CField e s :: r =>
+      match field_spec sigs e s with
+      | Some sp =>
+          if bf && brace_fill sp then Err 4
+          else match emit_field sp (vshape sigs e) (vraw sigs env e) with
+               | Ok t => render_b bf sigs env r (acc ++ t)
+               | Err c => Err c
+               end
+      | None => Err 9
+      end
+  end.
+Definition emit_format_b (bf : bool) (sigs : list shape) (env : list Z) (f : format) : res :=
+  if args_check sigs env f then render_b bf sigs env f [] else Err 3.
+
+Definition fire_print_b (bf : bool) (sigs : list shape) (env : list Z) (f : format) (out : list Z) : outcome :=
+  match emit_format_b bf sigs env f with
+  | Ok t => Cont (out ++ t ++ [10])
+  | Err c => Stop out c []
+  end.
+
+Definition fire_prop_b (bf : bool) (sigs : list shape) (env : list Z) (k : pkind) (t : vexpr) (m : option format)
+    (out : list Z) : outcome :=
+  let tv := norm (vshape sigs t) (vraw sigs env t) in
+  match k with
+  | KCover =>
+      match m with
+      | None => Cont out
+      | Some f => if tv =? 0 then Cont out
+                  else match emit_format_b bf sigs env f with
+                       | Ok txt => Cont (out ++ [COVER_MARK; 32] ++ txt ++ [10])
+                       | Err c => Stop out c []
+                       end
+      end
+  | _ =>
+      if tv =? 0 then
+        match m with
+        | None => Stop out 1 (assert_text k)
+        | Some f => match emit_format_b bf sigs env f with
+                    | Ok txt => Stop out 1 (assert_text k ++ [58; 32] ++ txt)
+                    | Err c => Stop out c []
+                    end
+        end
+      else Cont out
+  end.
+
+Fixpoint exec_b (bf : bool) (sigs : list shape) (env : list Z) (p : prog) (out : list Z) : outcome :=
+  match p with
+  | PSkip => Cont out
+  | PSeq a b => match exec_b bf sigs env a out with Cont out' => exec_b bf sigs env b out' | s => s end
+  | PPrint f => fire_print_b bf sigs env f out
+  | PProp k t m => fire_prop_b bf sigs env k t m out
+  | PIf c t e => if eval_cond sigs env c then exec_b bf sigs env t out else exec_b bf sigs env e out
+  end.
+
+(* 6.3  designs *)
+(* a register  `with m.If(en): m.d.<dom> += r.eq(r + step)`  (en = None: unconditional) *)
+Record reg := Reg { g_idx : nat; g_dom : nat; g_en : option nat; g_step : Z; g_init : Z; g_rless : bool }.
+Record dom := Dom { d_pos : bool; d_rst : bool; d_async : bool; d_prog : prog }.
+Record design := Design { ds_sigs : list shape; ds_doms : list dom; ds_comb : prog; ds_regs : list reg }.
+
+Inductive tstep := TSet (i : nat) (v : Z) | TClk (d : nat) (b : bool) | TRst (d : nat) (b : bool).
+Record dstate := DS { s_env : list Z; s_clk : list bool; s_rst : list bool }.
+
+Fixpoint set_nthb (i : nat) (v : bool) (l : list bool) : list bool :=
+  match i, l with
+  | O, _ :: r => v :: r
+  | S j, x :: r => x :: set_nthb j v r
+  | _, [] => []
+  end.
+
+Definition dom_of (D : design) (d : nat) : dom := nth d (ds_doms D) (Dom true false false PSkip).
+
+(* value of a register after a run of its domain's process, from the values before the run *)
+Definition reg_next (sigs : list shape) (env : list Z) (rst : bool) (r : reg) : Z :=
+  let cur := sig_val env (g_idx r) in
+  if rst && negb (g_rless r) then g_init r
+  else if match g_en r with None => true | Some e => eval_cond sigs env (CNz e) end
+       then norm (sig_shape sigs (g_idx r)) (cur + g_step r) else cur.
+
+Fixpoint update_regs (sigs : list shape) (env0 : list Z) (rst : bool) (d : nat) (regs : list reg) (env : list Z) : list Z :=
+  match regs with
+  | [] => env
+  | r :: rs => update_regs sigs env0 rst d rs
+                 (if Nat.eqb (g_dom r) d then set_nth (g_idx r) (reg_next sigs env0 rst r) env else env)
+  end.
+
+(* documented asynchronous reset: the registers take their initial value when rst rises, nothing else happens *)
+Fixpoint reset_regs (d : nat) (regs : list reg) (env : list Z) : list Z :=
+  match regs with
+  | [] => env
+  | r :: rs => reset_regs d rs (if Nat.eqb (g_dom r) d && negb (g_rless r) then set_nth (g_idx r) (g_init r) env else env)
+  end.
+
+(* signals read by a process (its wakers, for the comb process) *)
+Definition vexpr_sig (e : vexpr) : nat := match e with VSig i | VAsS i | VAsU i | VInv i | VNeg i => i end.
+Fixpoint format_sigs (f : format) : list nat :=
+  match f with [] => [] | CLit _ :: r => format_sigs r | CField e _ :: r => vexpr_sig e :: format_sigs r end.
+Fixpoint prog_sigs (p : prog) : list nat :=
+  match p with
+  | PSkip => []
+  | PSeq a b => prog_sigs a ++ prog_sigs b
+  | PPrint f => format_sigs f
+  | PProp _ t m => vexpr_sig t :: match m with Some f => format_sigs f | None => [] end
+  | PIf c t e => match c with CNz i | CPat i _ => i end :: prog_sigs t ++ prog_sigs e
+  end.
+Definition changed (sens : list nat) (env env' : list Z) : bool :=
+  existsb (fun i => negb (sig_val env i =? sig_val env' i)) sens.
+
+(* the comb process runs again when a signal it reads changed *)
+Definition after_change (bf : bool) (D : design) (env env' : list Z) (out : list Z) : outcome :=
+  if changed (prog_sigs (ds_comb D)) env env' then exec_b bf (ds_sigs D) env' (ds_comb D) out else Cont out.
+
+(* one run of the process of domain d (rst = level of its reset seen by the run): statements read the values
+   before the run; then the registers are updated; then comb logic follows *)
+Definition proc_run (bf : bool) (D : design) (d : nat) (rst : bool) (env : list Z) (out : list Z) : outcome * list Z :=
+  match exec_b bf (ds_sigs D) env (d_prog (dom_of D d)) out with
+  | Cont out' =>
+      let env' := update_regs (ds_sigs D) env rst d (ds_regs D) env in
+      (after_change bf D env env' out', env')
+  | s => (s, env)
+  end.
+
+(* f7 = true: semantics of the unrepaired code for finding F7 (the rise of an asynchronous reset runs the process) *)
+Definition dstep_run (f7 bf : bool) (D : design) (t : tstep) (st : dstate) (out : list Z) : outcome * dstate :=
+  match t with
+  | TSet i v =>
+      let env' := set_nth i (norm (sig_shape (ds_sigs D) i) v) (s_env st) in
+      (after_change bf D (s_env st) env' out, DS env' (s_clk st) (s_rst st))
+  | TClk d b =>
+      let st' := DS (s_env st) (set_nthb d b (s_clk st)) (s_rst st) in
+      if is_edge (d_pos (dom_of D d)) (nth d (s_clk st) false) b then
+        let '(o, env') := proc_run bf D d (nth d (s_rst st) false) (s_env st) out in
+        (o, DS env' (s_clk st') (s_rst st'))
+      else (Cont out, st')
+  | TRst d b =>
+      let rsts' := set_nthb d b (s_rst st) in
+      if d_async (dom_of D d) && b && negb (nth d (s_rst st) false) then
+        if f7 then
+          let '(o, env') := proc_run bf D d true (s_env st) out in (o, DS env' (s_clk st) rsts')
+        else
+          let env' := reset_regs d (ds_regs D) (s_env st) in
+          (after_change bf D (s_env st) env' out, DS env' (s_clk st) rsts')
+      else (Cont out, DS (s_env st) (s_clk st) rsts')
+  end.
+
+Fixpoint run_dsteps (f7 bf : bool) (D : design) (steps : list tstep) (st : dstate) (idx : Z) (out : list Z) : outcome * Z :=
+  match steps with
+  | [] => (Cont out, idx)
+  | t :: r =>
+      match dstep_run f7 bf D t st out with
+      | (Cont out', st') => run_dsteps f7 bf D r st' (idx + 1) out'
+      | (s, _) => (s, idx)
+      end
+  end.
+
+Fixpoint init_regs (regs : list reg) (env : list Z) : list Z :=
+  match regs with [] => env | r :: rs => init_regs rs (set_nth (g_idx r) (g_init r) env) end.
+Definition design_init (D : design) : dstate :=
+  DS (init_regs (ds_regs D) (init_env (ds_sigs D))) (map (fun _ => false) (ds_doms D)) (map (fun _ => false) (ds_doms D)).
+
+(* the comb process runs once when the simulation starts *)
+Definition run_design (f7 bf : bool) (D : design) (steps : list tstep) : outcome * Z :=
+  let st := design_init D in
+  match exec_b bf (ds_sigs D) (s_env st) (ds_comb D) [] with
+  | Cont out => run_dsteps f7 bf D steps st 0 out
+  | s => (s, 0)
+  end.
+
+Definition design_ok (D : design) : bool :=
+  forallb (fun dm => prog_ok (ds_sigs D) (d_prog dm)) (ds_doms D) && prog_ok (ds_sigs D) (ds_comb D).
